@@ -554,8 +554,163 @@ func c17CustomOptions(c *core.Ctx) bool {
 	return true
 }
 
+// c17Directed: (a) Not() followed by Min / Max on the schema object Not() returned (statement style): the length test is the negated one,
+// the test after it is plain; (b) WithCoercer applied to a Ptr acts exactly as the same option given to the pointed-to schema's
+// constructor; (c) NotNil on a pointer to a pointer concerns that pointer: the inner pointer schema, also used elsewhere, stays optional.
+func c17Directed(c *core.Ctx) bool {
+	render := func(l z.ZogIssueList) string {
+		var out []string
+		for _, e := range l {
+			out = append(out, e.Path+"|"+e.Code)
+		}
+		sort.Strings(out)
+		return strings.Join(out, ", ")
+	}
+	renderM := func(m z.ZogIssueMap) string {
+		var l z.ZogIssueList
+		for k, v := range m {
+			if k != "$first" {
+				l = append(l, v...)
+			}
+		}
+		return render(l)
+	}
+	// (a)
+	for _, which := range []string{"Min", "Max"} {
+		mk := func() *z.StringSchema[string] {
+			s := z.String()
+			s.Not()
+			if which == "Min" {
+				s.Min(3)
+			} else {
+				s.Max(3)
+			}
+			s.Contains("a")
+			return s
+		}
+		for _, in := range []string{"ab", "abcd", "xyz", "wxyz", "a", "abc"} {
+			plain := len([]rune(in)) >= 3
+			if which == "Max" {
+				plain = len([]rune(in)) <= 3
+			}
+			var want []string
+			if !strings.Contains(in, "a") {
+				want = append(want, "|contained")
+			}
+			if plain {
+				want = append(want, "|not_"+strings.ToLower(which))
+			}
+			sort.Strings(want)
+			for _, mode := range []string{"Parse", "Validate"} {
+				var got string
+				if mode == "Parse" {
+					var d string
+					got = render(mk().Parse(in, &d))
+				} else {
+					v := in
+					got = render(mk().Validate(&v))
+				}
+				c.Eval(1)
+				if got != strings.Join(want, ", ") {
+					c.Violation("not-negates-other-test|statement-style", map[string]any{"schema": fmt.Sprintf("s := z.String(); s.Not(); s.%s(3); s.Contains(\"a\")", which), "input": in, "mode": mode, "issues(path|code)": got, "want": strings.Join(want, ", ")})
+					return false
+				}
+			}
+		}
+	}
+	// (b)
+	type sc struct {
+		name  string
+		viaP  func() *z.PointerSchema
+		viaC  func() *z.PointerSchema
+		input []any
+	}
+	dash := func(d any) (any, error) {
+		if s, ok := d.(string); ok && strings.Trim(s, "-") == "" {
+			return "", nil
+		}
+		if d == "bad" {
+			return nil, errors.New("refused")
+		}
+		return fmt.Sprint(d), nil
+	}
+	num := func(d any) (any, error) {
+		if d == "bad" {
+			return nil, errors.New("refused")
+		}
+		return 41, nil
+	}
+	apply := func(p *z.PointerSchema, co z.CoercerFunc) *z.PointerSchema { z.WithCoercer(co)(p); return p }
+	scs := []sc{
+		{"Ptr(String().Required())", func() *z.PointerSchema { return apply(z.Ptr(z.String().Required()), dash) }, func() *z.PointerSchema { return z.Ptr(z.String(z.WithCoercer(dash)).Required()) }, []any{"---", "x", "bad", 5}},
+		{"Ptr(String().Default(dflt).Min(2))", func() *z.PointerSchema { return apply(z.Ptr(z.String().Default("dflt").Min(2)), dash) }, func() *z.PointerSchema { return z.Ptr(z.String(z.WithCoercer(dash)).Default("dflt").Min(2)) }, []any{"---", "x", "bad", "long"}},
+		{"Ptr(String().Min(2).Catch(caught))", func() *z.PointerSchema { return apply(z.Ptr(z.String().Min(2).Catch("caught")), dash) }, func() *z.PointerSchema { return z.Ptr(z.String(z.WithCoercer(dash)).Min(2).Catch("caught")) }, []any{"---", "x", "bad", "long"}},
+	}
+	for _, x := range scs {
+		for _, in := range x.input {
+			var d1, d2 *string
+			g1, g2 := renderM(x.viaP().Parse(in, &d1)), renderM(x.viaC().Parse(in, &d2))
+			c.Eval(2)
+			v1, v2 := "<nil>", "<nil>"
+			if d1 != nil {
+				v1 = *d1
+			}
+			if d2 != nil {
+				v2 = *d2
+			}
+			if g1 != g2 || v1 != v2 {
+				c.Violation("coercer-through-ptr-differs-from-coercer-on-the-pointee", map[string]any{"schema": x.name, "input": fmt.Sprint(in), "WithCoercer applied to the Ptr": fmt.Sprintf("issues [%s] value %q", g1, v1), "WithCoercer given to the pointee": fmt.Sprintf("issues [%s] value %q", g2, v2)})
+				return false
+			}
+		}
+	}
+	var n1, n2 *int
+	g1 := renderM(apply(z.Ptr(z.Int().GT(50).Catch(7)), num).Parse("bad", &n1))
+	g2 := renderM(z.Ptr(z.Int(z.WithCoercer(num)).GT(50).Catch(7)).Parse("bad", &n2))
+	c.Eval(2)
+	if g1 != g2 || n1 == nil || n2 == nil || *n1 != *n2 {
+		c.Violation("coercer-through-ptr-differs-from-coercer-on-the-pointee", map[string]any{"schema": "Ptr(Int().GT(50).Catch(7)), coercer refuses", "issues_via_ptr": g1, "issues_via_pointee": g2})
+		return false
+	}
+	// (c)
+	type rec struct {
+		A **int
+		B *int
+		L []*int
+	}
+	inner := z.Ptr(z.Int())
+	one := z.Struct(z.Schema{"a": z.Ptr(inner).NotNil(z.Message("a is needed")), "b": inner, "l": z.Slice(inner)})
+	copies := z.Struct(z.Schema{"a": z.Ptr(z.Ptr(z.Int())).NotNil(z.Message("a is needed")), "b": z.Ptr(z.Int()), "l": z.Slice(z.Ptr(z.Int()))})
+	for _, in := range []map[string]any{{"a": 1}, {"a": 1, "l": []any{2, nil}}, {"b": 3}, {}} {
+		var r1, r2 rec
+		g1, g2 := renderM(one.Parse(in, &r1)), renderM(copies.Parse(in, &r2))
+		c.Eval(2)
+		if g1 != g2 {
+			c.Violation("shared-node-differs-from-copies|Parse", map[string]any{"schema": "inner := Ptr(Int()); {a: Ptr(inner).NotNil(), b: inner, l: Slice(inner)}", "input": fmt.Sprint(in), "issues_one_object": g1, "issues_independent_copies": g2})
+			return false
+		}
+	}
+	x := 5
+	px := &x
+	var nilInt *int
+	for _, v := range []rec{{A: &px}, {A: &nilInt}, {A: &px, L: []*int{nil, px}}} {
+		v1, v2 := v, v
+		g1, g2 := renderM(one.Validate(&v1)), renderM(copies.Validate(&v2))
+		c.Eval(2)
+		if g1 != g2 {
+			c.Violation("shared-node-differs-from-copies|Validate", map[string]any{"schema": "inner := Ptr(Int()); {a: Ptr(inner).NotNil(), b: inner, l: Slice(inner)}", "issues_one_object": g1, "issues_independent_copies": g2})
+			return false
+		}
+	}
+	c.Count("directed_builder_scenarios", 1)
+	return true
+}
+
 func c17Sharing(c *core.Ctx) {
 	r := c.R
+	if c.Case%10 == 7 && !c17Directed(c) {
+		return
+	}
 	if c.Case%10 == 5 && !c17AliasedPointers(c) {
 		return
 	}
